@@ -39,11 +39,12 @@ def build_classes():
     class Stack:
         def __init__(self, net, devid, max_apdu=1024, seg='segmentedBoth', max_segs=16,
                      window=None, retries=None, apdu_timeout=None, seg_timeout=None,
-                     app_timeout=None, use_iocb=False, net_number=None, spell="plain"):
+                     app_timeout=None, use_iocb=False, net_number=None, spell="plain", lan=None, peer_net=None):
             self.net = net
             self.devid = devid
             self.net_number = net_number     # the network layer is told the number of its (only) network
             self.spell = spell               # how THIS stack writes its peers' addresses (see dest())
+            self.peer_net = peer_net         # spell "routed": the peers live on that network, behind a router
             self.address = Address(devid)
             self.device = LocalDeviceObject(
                 objectName="dev%d" % devid, objectIdentifier=("device", devid),
@@ -83,7 +84,7 @@ def build_classes():
             self.nse = NetworkServiceElement()
             bind(self.nse, self.nsap)
             bind(self.app, self.asap, self.smap, self.nsap)
-            self.node = Node(self.address, net.lan)
+            self.node = Node(self.address, lan if lan is not None else net.lan)
             if net_number is None:
                 self.nsap.bind(self.node)
             else:
@@ -205,6 +206,12 @@ def build_classes():
             """the peer's address the way this application writes it: the plain station, or — when the
             network layer knows its network number — the same station WITH that number ("1:20" on
             network 1), a fresh object per request or one object reused for all of them"""
+            if self.spell == "routed":
+                if not hasattr(self, "_dests"):
+                    self._dests = {}
+                if other.devid not in self._dests:
+                    self._dests[other.devid] = Address("%d:%d" % (self.peer_net, other.devid))
+                return self._dests[other.devid]
             if self.spell == "plain" or self.net_number is None:
                 return other.address
             if self.spell == "net-fresh":
@@ -285,6 +292,22 @@ class E2ENet:
         s = self.Stack(self, devid, **kw)
         self.stacks.append(s)
         return s
+
+    def add_router(self, net_a=1, net_b=2, mac=1):
+        """a second LAN joined to the first by a real router (NSAP + NSE, no application)"""
+        from bacpypes.pdu import Address, LocalBroadcast
+        from bacpypes.comm import bind
+        from bacpypes.vlan import Node
+        from bacpypes.netservice import NetworkServiceAccessPoint, NetworkServiceElement
+        FaultNet = _vt.make_faultnet()
+        self.lan2 = FaultNet(broadcast_address=LocalBroadcast())
+        self.rnsap = NetworkServiceAccessPoint()
+        self.rnse = NetworkServiceElement()
+        bind(self.rnse, self.rnsap)
+        self.rnodes = (Node(Address(mac), self.lan), Node(Address(mac), self.lan2))
+        self.rnsap.bind(self.rnodes[0], net_a)
+        self.rnsap.bind(self.rnodes[1], net_b)
+        return self.lan2
 
     def run(self, until=None, max_loops=200000):
         return self.vt.run(until=until, max_loops=max_loops)
